@@ -5,13 +5,42 @@ from analysis import cfg, poly
 from analysis.sym import sym, show_in, nosite, peel, core, walk, ret_values, args_of, guards_at, atoms_at, \
     variant_facts_at, cmp_facts_at, init_value, edge_guards, symbolizer, simplify, loop_source, defs_of, var_defs
 from analysis.pat import match, Call, Cap, ANY, Pred, Const, has, chain_names
-from rules.common import closure_of
+from rules.common import closure_of, state_locals, local_defs, V
 
 MW = 'text::match_words_with'
 
 
+R = {}
+
+
 def _var(name):
-    return Pred(lambda t: t[0] == 'var' and t[1] == name)
+    """role based: d / ops = value / op matrices (by element type), matches = the result vector, i / j = backtrace positions"""
+    return Pred(lambda t: isinstance(t, tuple) and t and t[0] == 'var' and len(t) > 2 and R.get(name) == t[2])
+
+
+def _role(local):
+    for k, v in R.items():
+        if v == local:
+            return k
+    return None
+
+
+def _roles(b):
+    R.clear()
+    d = state_locals(b, r'^std::vec::Vec<std::vec::Vec<usize>>$')
+    o = state_locals(b, r'^std::vec::Vec<std::vec::Vec<text::MatchOp>>$')
+    m = state_locals(b, r'^std::vec::Vec<\(usize, usize\)>$')
+    if len(d) != 1 or len(o) != 1 or len(m) != 1:
+        raise AnchorMissing('value matrix / op matrix / match list of match_words_with (found %d / %d / %d)' % (len(d), len(o), len(m)))
+    R['d'], R['ops'], R['matches'] = d[0], o[0], m[0]
+    for l in state_locals(b, r'^usize$'):
+        for site, v in local_defs(b, l):
+            cv = core(init_value(b, v))
+            if match(core(v), Call('Vec::len', ANY)):
+                if has(cv, Call('split_ascii_whitespace', ('arg', 1, ANY))) or has(cv, Call('split_whitespace', ('arg', 1, ANY))):
+                    R['i'] = l
+                elif has(cv, Call('split_ascii_whitespace', ('arg', 2, ANY))) or has(cv, Call('split_whitespace', ('arg', 2, ANY))):
+                    R['j'] = l
 
 
 def _stores(b, blocks=None):
@@ -28,6 +57,7 @@ def _stores(b, blocks=None):
       'match] with Match only when the words match, NoMatch otherwise; the words compared are a_words[i-1], b_words[j-1]')
 def r1(ctx):
     b = ctx.body(MW)
+    _roles(b)
     mx = [t for t in b.calls(r'Iterator::max_by$|Iterator::max_by_key$|Iterator::max$')]
     if len(mx) != 1:
         raise AnchorMissing('candidate selection (max_by) of match_words_with')
@@ -48,8 +78,8 @@ def r1(ctx):
     ctx.require(ok, b, 'loops', 'outer loop enumerates the words of a, inner loop the words of b', 'loops iterate %s / %s' % (show_in(b, sa), show_in(b, sb)))
     a_it = ('unwrap', nosite(sym(b, nxa[0].dest)))
     b_it = ('unwrap', nosite(sym(b, nxb[0].dest)))
-    ka = repr(nosite(core(('field', a_it, 0))))
-    kb = repr(nosite(core(('field', b_it, 0))))
+    ka = poly.atom_key(core(('field', a_it, 0)))
+    kb = poly.atom_key(core(('field', b_it, 0)))
     pi = poly._add(poly.var(ka), poly.const(1), 1)
     pj = poly._add(poly.var(kb), poly.const(1), 1)
     a_w = nosite(core(('field', a_it, 1)))
@@ -67,8 +97,8 @@ def r1(ctx):
     tgt = {}
     for s, t, v in _stores(b, inner.blocks):
         ct = core(t)
-        if ct[0] == 'index' and ct[1][0] == 'index' and ct[1][1][0] == 'var' and ct[1][1][1] in ('d', 'ops') and has(core(v), Pred(lambda u: nosite(u) == sel)):
-            tgt[ct[1][1][1]] = (s, ct, core(v))
+        if ct[0] == 'index' and ct[1][0] == 'index' and ct[1][1][0] == 'var' and _role(ct[1][1][2]) in ('d', 'ops') and has(core(v), Pred(lambda u: nosite(u) == sel)):
+            tgt[_role(ct[1][1][2])] = (s, ct, core(v))
     if set(tgt) != {'d', 'ops'}:
         raise AnchorMissing('stores d[i][j] = max_value / ops[i][j] = max_op')
     for k in ('d', 'ops'):
@@ -111,7 +141,7 @@ def r1(ctx):
     ctx.require(set(cands) == {'Delete', 'Insert', 'diag'}, b, 'candidate-set', 'candidates: Delete, Insert, diagonal (Match/NoMatch)', 'candidates: %s' % sorted(cands))
 
     def rel(v):
-        if v[0] == 'index' and v[1][0] == 'index' and v[1][1][0] == 'var' and v[1][1][1] == 'd':
+        if v[0] == 'index' and v[1][0] == 'index' and v[1][1][0] == 'var' and _role(v[1][1][2]) == 'd':
             di = poly.sub(poly.poly(v[1][2]), pi)
             dj = poly.sub(poly.poly(v[2]), pj)
             if all(m == () for m in di) and all(m == () for m in dj):
@@ -135,7 +165,7 @@ def r1(ctx):
         ok = len(rv) == 1 and match(core(rv[0][0]), Call('cmp', ('field', ('arg', 2, ANY), 0), ('field', ('arg', 3, ANY), 0)))
     ctx.require(ok, b, 'selector', 'selection = max_by(|x, y| x.value.cmp(y.value))', None, mx[0].span)
     # matrix shape and zero initialisation
-    dd = [v for site, v in var_defs(b, 'd')]
+    dd = [v for site, v in local_defs(b, R['d'])]
     ok = len(dd) == 1 and match(core(dd[0]), Call('from_elem', Call('from_elem', Const(0), ('bin', 'Add', Call('Vec::len', ANY), Const(1))), ('bin', 'Add', Call('Vec::len', ANY), Const(1))))
     ctx.require(ok, b, 'matrix-init', 'd is a (|a|+1) x (|b|+1) matrix of zeros (LCS of an empty prefix is 0)', 'd = %s' % [show_in(b, x) for x in dd])
     # first row / column ops
@@ -167,6 +197,9 @@ def r1(ctx):
       'NoMatch (1,1); reversed once; the returned counts are the lengths of the two word vectors')
 def r2(ctx):
     b = ctx.body(MW)
+    _roles(b)
+    if 'i' not in R or 'j' not in R:
+        raise AnchorMissing('backtrace positions starting at the word counts')
     pushes = [t for t in b.calls(r'Vec::push$') if match(core(sym(b, t.args[0])), _var('matches'))]
     if len(pushes) != 1:
         raise AnchorMissing('matches.push((i, j)) (found %d)' % len(pushes))
@@ -185,18 +218,18 @@ def r2(ctx):
             continue
         dec = {'i': 0, 'j': 0}
         for s, t, v in sts:
-            if s.bb in blocks and t[0] == 'var' and t[1] in ('i', 'j'):
+            if s.bb in blocks and t[0] == 'var' and _role(t[2]) in ('i', 'j'):
                 cv = core(v)
-                if cv[0] == 'bin' and cv[1] == 'Sub' and cv[2][0] == 'var' and cv[2][1] == t[1] and cv[3][0] == 'const':
-                    dec[t[1]] += cv[3][2]
+                if cv[0] == 'bin' and cv[1] == 'Sub' and cv[2][0] == 'var' and cv[2][2] == t[2] and cv[3][0] == 'const':
+                    dec[_role(t[2])] += cv[3][2]
                 else:
-                    dec[t[1]] = 99
+                    dec[_role(t[2])] = 99
         ctx.require((dec['i'], dec['j']) == (di, dj), b, 'step|' + name, '%s moves (i, j) by (-%d, -%d)' % (name, di, dj),
                     '%s moves (i, j) by (-%d, -%d), expected (-%d, -%d)' % (name, dec['i'], dec['j'], di, dj))
         ps = [p for p in pushes if p.bb in blocks]
         if name == 'Match':
             ok = len(ps) == 1 and match(core(sym(b, ps[0].args[1])), ('agg', 'tuple', '', (_var('i'), _var('j'))))
-            decs = [s for s, t, v in sts if s.bb in blocks and t[0] == 'var' and t[1] in ('i', 'j')]
+            decs = [s for s, t, v in sts if s.bb in blocks and t[0] == 'var' and _role(t[2]) in ('i', 'j')]
             tup = [s for s in b.stmts() if s.bb in blocks and s.kind == 'assign' and s.rv.kind == 'agg' and s.rv.agg == 'tuple' and len(s.rv.ops) == 2]
             ok = ok and len(tup) == 1 and all(cfg.dominates(b, s.bb, tup[0].bb) and (s.bb != tup[0].bb or s.idx < tup[0].idx) for s in decs)
             ctx.require(ok, b, 'push|Match', 'Match pushes (i, j) after both were decremented (0-based word indices)',
@@ -212,7 +245,7 @@ def r2(ctx):
     ctx.require(ok, b, 'loop-condition', 'the backtrace runs while i > 0 || j > 0', None)
     inits = {}
     for nm in ('i', 'j'):
-        for site, v in var_defs(b, nm):
+        for site, v in local_defs(b, R[nm]):
             if site.bb not in loop.blocks and site.bb not in [x for l in cfg.loops(b) if l is not loop for x in l.blocks]:
                 inits[nm] = core(v)
     ok = match(inits.get('i', ()), Call('Vec::len', Pred(lambda u: has(init_value(b, u), Call('split_ascii_whitespace', ('arg', 1, ANY))) or has(u, Call('split_ascii_whitespace', ('arg', 1, ANY)))))) and \
